@@ -9,7 +9,10 @@ import (
 	"encoding/base64"
 	"encoding/json"
 	"fmt"
+	tmed25519 "github.com/cometbft/cometbft/crypto/ed25519"
+	authtypes "github.com/cosmos/cosmos-sdk/x/auth/types"
 	"math/rand"
+	"sort"
 	"strings"
 
 	"github.com/btcsuite/btcutil/base58"
@@ -510,6 +513,144 @@ func (e *didEnv) monC05GenesisTombstoneResidue() {
 	}))
 }
 
+// monC04OtherKeyTypes: an authentication key of a type the module does not verify today (Ed25519VerificationKey2018, with
+// a real ed25519 key pair).  Proofs made with it — over the module's (document, sequence) bytes and over the document's
+// JSON form, which names no sequence — are either refused, or, should an implementation accept one, consumed by the
+// acceptance: the sequence read afterwards is exactly one more, and the very same message is refused the second time.
+func (e *didEnv) monC04OtherKeyTypes() {
+	e.s.Emit("mon.c04.other-key-types", guard(func() string {
+		c, err := NewChain(memDB(), tmpHome(), nil, 0, nil)
+		if err != nil {
+			return "pass #no-chain"
+		}
+		c.Begin(c.Time)
+		g := sdk.WrapSDKContext(c.DeliverCtx())
+		ms := didkeeper.NewMsgServerImpl(c.App.DidKeeper)
+		from := sdk.AccAddress([]byte("relayer-1-address-xx")).String()
+		k1 := newDidKey("okt-secp")
+		ed := tmed25519.GenPrivKeyFromSecret([]byte("okt-ed25519"))
+		did := didtypes.NewDID(k1.pub)
+		id1, id2 := did+"#key1", did+"#key2"
+		docWith := func(svc string) *didtypes.DIDDocument {
+			vms := []*didtypes.VerificationMethod{
+				{Id: id1, Type: didtypes.ES256K_2019, Controller: did, PublicKeyBase58: k1.b58},
+				{Id: id2, Type: didtypes.ED25519_2018, Controller: did, PublicKeyBase58: base58.Encode(ed.PubKey().Bytes())},
+			}
+			d := didtypes.NewDIDDocument(did, didtypes.WithVerificationMethods(vms),
+				didtypes.WithAuthentications([]didtypes.VerificationRelationship{rel(id1), rel(id2)}))
+			if svc != "" {
+				d.Services = []*didtypes.Service{{Id: "s1", Type: "T", ServiceEndpoint: svc}}
+			}
+			return &d
+		}
+		d0 := docWith("")
+		sig0, _ := didtypes.Sign(d0, 0, k1.priv)
+		if _, err := ms.CreateDID(g, &didtypes.MsgCreateDIDRequest{Did: did, Document: d0, VerificationMethodId: id1, Signature: sig0, FromAddress: from}); err != nil {
+			return "pass #create-refused"
+		}
+		seqOf := func() uint64 { return c.App.DidKeeper.GetDIDDocument(c.DeliverCtx(), did).Sequence }
+		accepted := 0
+		for i, form := range []string{"with-sequence", "json-form", "with-sequence", "json-form"} {
+			d := docWith(fmt.Sprintf("https://svc/%d", i))
+			seq := seqOf()
+			var sig []byte
+			if form == "with-sequence" {
+				sig, _ = didtypes.Sign(d, seq, ed)
+			} else {
+				sig, _ = ed.Sign(d.GetSignBytes())
+			}
+			m := &didtypes.MsgUpdateDIDRequest{Did: did, Document: d, VerificationMethodId: id2, Signature: sig, FromAddress: from}
+			if m.ValidateBasic() != nil {
+				continue
+			}
+			if _, err := ms.UpdateDID(g, m); err != nil {
+				continue
+			}
+			accepted++
+			if seqOf() != seq+1 {
+				return "fail #accepted-proof-did-not-advance-the-sequence-by-one (" + form + ")"
+			}
+			if _, err := ms.UpdateDID(g, m); err == nil {
+				return "fail #accepted-message-accepted-again (" + form + " proof by an ed25519 key)"
+			}
+			// ... and not after a further, ordinary update either
+			dn := docWith(fmt.Sprintf("https://svc/%d/next", i))
+			sn, _ := didtypes.Sign(dn, seqOf(), k1.priv)
+			if _, err := ms.UpdateDID(g, &didtypes.MsgUpdateDIDRequest{Did: did, Document: dn, VerificationMethodId: id1, Signature: sn, FromAddress: from}); err == nil {
+				if _, err := ms.UpdateDID(g, m); err == nil {
+					return "fail #accepted-message-accepted-again-later (" + form + " proof by an ed25519 key)"
+				}
+			}
+		}
+		return fmt.Sprintf("pass #%d-accepted", accepted)
+	}))
+}
+
+// monC11GenesisNonexistentEntry: genesis validation accepts entries that mean "this DID does not exist" (empty document,
+// sequence 0).  A file that has such entries among active documents and tombstones — whichever way their keys sort —
+// either is refused, or starts a chain on which every stored identifier resolves to a document about itself and every
+// active document of the file is found under its own identifier.
+func (e *didEnv) monC11GenesisNonexistentEntry() {
+	e.s.Emit("mon.c11.genesis-with-nonexistent-entry", guard(func() string {
+		type ent struct {
+			did string
+			k   *didKey
+		}
+		var es []ent
+		for i := 0; i < 6; i++ {
+			k := newDidKey(fmt.Sprintf("gen-ne-%d", i))
+			es = append(es, ent{didtypes.NewDID(k.pub), k})
+		}
+		sort.Slice(es, func(i, j int) bool { return es[i].did < es[j].did })
+		docs := map[string]*didtypes.DIDDocumentWithSeq{}
+		active := map[string]bool{}
+		for i, x := range es {
+			var w didtypes.DIDDocumentWithSeq
+			switch i {
+			case 0, 3: // "does not exist"
+				w = didtypes.NewDIDDocumentWithSeq(&didtypes.DIDDocument{}, 0)
+			case 4: // tombstone
+				w = didtypes.NewDIDDocumentWithSeq(&didtypes.DIDDocument{}, 5)
+			default:
+				vmID := x.did + "#key1"
+				vm := &didtypes.VerificationMethod{Id: vmID, Type: didtypes.ES256K_2019, Controller: x.did, PublicKeyBase58: x.k.b58}
+				d := didtypes.NewDIDDocument(x.did, didtypes.WithVerificationMethods([]*didtypes.VerificationMethod{vm}),
+					didtypes.WithAuthentications([]didtypes.VerificationRelationship{rel(vmID)}))
+				w = didtypes.NewDIDDocumentWithSeq(&d, uint64(i))
+				active[x.did] = true
+			}
+			docs[didtypes.GenesisDIDDocumentKey{DID: x.did}.Marshal()] = &w
+		}
+		gs := didtypes.GenesisState{Documents: docs}
+		if err := gs.Validate(); err != nil {
+			return "pass #rejected-by-genesis-validation"
+		}
+		bz, err := e.c.App.AppCodec().MarshalJSON(&gs)
+		if err != nil {
+			return "pass #not-encodable"
+		}
+		c2, err := NewChain(memDB(), tmpHome(), nil, 0, map[string]json.RawMessage{didtypes.ModuleName: bz})
+		if err != nil {
+			return "pass #rejected-by-init-genesis"
+		}
+		c2.Begin(c2.Time)
+		ctx := c2.DeliverCtx()
+		for _, stored := range c2.App.DidKeeper.ListDIDs(ctx) {
+			d := c2.App.DidKeeper.GetDIDDocument(ctx, stored)
+			if d.Document != nil && !d.Document.Empty() && d.Document.Id != stored {
+				return "fail #registry-holds-a-document-about-another-did"
+			}
+		}
+		for did := range active {
+			d := c2.App.DidKeeper.GetDIDDocument(ctx, did)
+			if d.Document == nil || d.Document.Id != did {
+				return "fail #active-document-of-the-genesis-not-found-under-its-identifier"
+			}
+		}
+		return "pass"
+	}))
+}
+
 func (e *didEnv) dump() {
 	e.s.Emit("did.dump", guard(func() string {
 		k := e.c.App.DidKeeper
@@ -973,7 +1114,11 @@ func mkIdents() ([]*didIdent, []string) {
 	}
 	// identities 0 and 1 share a key (cross-DID replay, C11)
 	ids[1].keys = append(ids[1].keys, ids[0].keys[0])
-	rel := []string{sdk.AccAddress([]byte("relayer-1-address-xx")).String(), sdk.AccAddress([]byte("relayer-2-address-yy")).String()}
+	// the account that signs and pays confers no rights: ordinary relayers, and the chain's own module accounts (what a
+	// passed governance proposal or the module itself would sign as)
+	rel := []string{sdk.AccAddress([]byte("relayer-1-address-xx")).String(), sdk.AccAddress([]byte("relayer-2-address-yy")).String(),
+		authtypes.NewModuleAddress("gov").String(), authtypes.NewModuleAddress(authtypes.FeeCollectorName).String(),
+		authtypes.NewModuleAddress(didtypes.ModuleName).String()}
 	return ids, rel
 }
 
@@ -986,8 +1131,10 @@ func init() {
 		e.monC03UTF8()
 		e.monC11Genesis()
 		e.monC11GenesisKeySpelling()
+		e.monC11GenesisNonexistentEntry()
 		e.monC05GenesisSeqWrap()
 		e.monC05GenesisTombstoneResidue()
+		e.monC04OtherKeyTypes()
 		for h := 0; h < n; h++ {
 			didHistory(e, rng, ids, rel, 15+rng.Intn(30))
 		}
